@@ -16,6 +16,32 @@ SCOPE = ("Modelled, not verified: parsing, HIR lowering (body.rs), salsa and the
          "values_names_in_scope (resolver.rs) and the module value table. ")
 
 CHECKS = {
+ "C06": dict(
+  technique="Lean 4 proof of the search layer stated outright (M-search) instantiated with the implementation's own classification + inverse-view oracle",
+  text=("refs_iff (membership in references characterised), refs_nodup, refs_closed (asking again from a listed occurrence gives the same set), "
+        "highlight_iff (highlight = references in the file) and the gap lemma exact_iff: when the search name is the declared name and the search "
+        "scope is complete, an occurrence is listed exactly when go-to-definition leads to the declaration (Props/C06.lean). Tie: the model (Lean "
+        "driver `refs`) is fed the implementation's go-to-definition answer at every identifier token and must predict its references; the oracle "
+        "compares references with go-to-definition for every token spelled with the declaration's name. One genuine defect recorded (spread binders)."),
+  note=TB + SCOPE + "classify (go-to-definition) is a parameter of the model, taken from the implementation.", ref="5.C06"),
+ "C07": dict(
+  technique="Lean 4 proofs of edit application, rename-back and alpha-renaming with a fresh name (M-scope) + re-analysis oracle on the implementation",
+  text=("applyEdits_eq_rename (ascending disjoint edits applied to the text = token-level rename: only whole selected tokens change), edits_disjoint, "
+        "rename_back, and alpha_fresh: renaming a local binder together with exactly its references to a fresh name leaves the binder of every "
+        "occurrence unchanged under the environment semantics (Props/C07.lean). Oracle on the implementation: edits are whole identifier tokens "
+        "spelled with the old name, equal to the references; after applying them every identifier resolves to the same (moved) declaration, syntax "
+        "error counts are unchanged, renaming back restores the text. Module-level symbols, fields and labels are covered by the oracle only (partial)."),
+  note=TB + SCOPE, ref="5.C07"),
+ "C08": dict(
+  technique="Lean 4 decision of the rename table extracted by xlate from rename.rs (rename_accepts_iff) + exhaustive symbol-kind x name matrix",
+  text=("xlate extracts, per Definition variant, the token class `rename` demands, and the locality / alias / single-token flags of rename, "
+        "prepare_rename and find_def; rename_table_ok, rename_flags_ok, variants_classified are decided on the generated table and "
+        "rename_accepts_iff states the decision outright (Props/C08.lean). Tie: every identifier token of a two-package workspace (local + "
+        "build/packages dependency) x 36 candidate names, verdict compared with the property's table; prepare-rename vs existence of an accepted "
+        "rename; no edit in dependency files; model lexer vs real lexer on the candidates. Two genuine defects were found and repaired (fix: commits "
+        "99ebbbe, ea42aa3)."),
+  note=TB + "The extraction is structural (match arms, guards, flags by normalised-token search); the differential over the finite matrix validates it.",
+  ref="5.C08"),
  "C05": dict(
   technique="Lean 4 refinement proof (scope arena vs environment semantics) over hand model M-scope + differential through go-to-definition",
   text=("scopes_refine_spec: for every function body, resolving a name through the arena of scopes with parent pointers built by the model of "
